@@ -16,6 +16,7 @@ ASSUMPTIONS = ['responsive clock', 'thread workers stuck in an uncooperative tar
 
 PKINDS = ['pthread', 'pprocess', 'premote']
 POISON = 666
+UNBUILDABLE = 667
 
 
 def gen_case(ctx, rng, i, tag='random'):
@@ -50,7 +51,9 @@ def gen_case(ctx, rng, i, tag='random'):
         elif r < 0.55:
             ops.append(['kill', rng.randrange(0, 3)])
         elif r < 0.63:
-            ops.append(['stuck', rng.randrange(0, 3)])
+            # (sometimes preceded by an input whose result the parent cannot rebuild: the result stream of a remote worker is given
+            # up at that message while the child carries on with the next input)
+            ops.append(['stuck', rng.randrange(0, 3), rng.random() < 0.4])
         elif r < 0.73:
             ops.append(['add', rng.choice(kinds), rng.random() < 0.6])
         elif r < 0.8:
@@ -98,7 +101,7 @@ class Run(PoolRun):
                     fail_reg['armed'] = False
                     raise BodyError('registration refused')
 
-        pool = FailingPool(T.p_pool, kwargs={'poison': [POISON]}, retry=True, close_timeout=c['close_timeout'])
+        pool = FailingPool(T.p_pool, kwargs={'poison': [POISON], 'origin_only': [UNBUILDABLE]}, retry=True, close_timeout=c['close_timeout'])
         if c['force'] is not None:
             pool.force = c['force']
         self.pool = pool
@@ -166,7 +169,7 @@ class Run(PoolRun):
                 nprocs = set(p.pid for p in s.procs.values() if p.alive)
                 if name == 'attach':
                     from pyworkers.utils import Pipe
-                    r = lib.call_with_deadline(lib.make_worker, 600.0, kind, 'p_pool', kwargs={'poison': [POISON]}, host=host,
+                    r = lib.call_with_deadline(lib.make_worker, 600.0, kind, 'p_pool', kwargs={'poison': [POISON], 'origin_only': [UNBUILDABLE]}, host=host,
                                                results_pipe=Pipe())
                     if r[0] != 'ok':
                         continue
@@ -315,6 +318,9 @@ class Run(PoolRun):
                 if ws:
                     w = ws[op[1] % len(ws)]
                     try:
+                        if len(op) > 2 and op[2]:
+                            w.enqueue(UNBUILDABLE)
+                            s.fault('unbuildable-result-then-stuck')
                         w.enqueue({'$swallow': True})
                         self.stuck.append(w)
                         s.fault('stuck-worker')
